@@ -192,7 +192,16 @@ pub fn check_doc_accessors(ctx: &mut Ctx, t: &Tree, rng: &mut Rng) {
 
     // ---- get_by_index: all indices 0..len+2 (and a far one)
     let len = if let Tree::Arr(v) = t { v.len() } else { 0 };
-    let mut idxs: Vec<usize> = (0..len + 3).collect();
+    let mut idxs: Vec<usize> = if len <= 600 {
+        (0..len + 3).collect()
+    } else {
+        let mut v: Vec<usize> = vec![0, 1, 254, 255, 256, 257, len - 2, len - 1, len, len + 1, len + 2];
+        v.extend([65_534usize, 65_535, 65_536, 65_537].iter().filter(|x| **x < len + 3));
+        for _ in 0..12 {
+            v.push(rng.below(len));
+        }
+        v
+    };
     idxs.push(usize::MAX);
     idxs.push(1 << 29);
     for i in idxs {
@@ -225,8 +234,14 @@ pub fn check_doc_accessors(ctx: &mut Ctx, t: &Tree, rng: &mut Rng) {
     match t {
         Tree::Arr(v) => {
             let n = v.len() as i32;
-            for i in (-n - 2)..=(n + 2) {
-                paths.push(vec![KP::Index(i)]);
+            if n <= 600 {
+                for i in (-n - 2)..=(n + 2) {
+                    paths.push(vec![KP::Index(i)]);
+                }
+            } else {
+                for i in [-n - 1, -n, -n + 1, -257, -256, -255, -1, 0, 255, 256, 257, n - 1, n, n + 1] {
+                    paths.push(vec![KP::Index(i)]);
+                }
             }
             paths.push(vec![KP::Index(i32::MAX)]);
             paths.push(vec![KP::Index(i32::MIN + 1)]);
@@ -395,6 +410,7 @@ pub fn run(ctx: &mut Ctx) {
         }
         let mut rng = ctx.rng.fork();
         let t = match i % 6 {
+            _ if i % 1501 == 7 && !ctx.miri => gen::big_doc(&mut rng),
             0 => gen::doc(&mut rng, &gen::DocCfg { max_depth: 6, max_fan: 4, nonfinite: true, container_p: 6 }),
             1 => gen::doc(&mut rng, &gen::DocCfg { max_depth: 2, max_fan: 10, nonfinite: true, container_p: 3 }),
             2 => gen::scalar(&mut rng, true),
